@@ -64,7 +64,8 @@ AllInLower(prefix, tree, loc, glo) == Size(Lower(prefix, tree, loc, glo)) = Size
 
 (* ---- the exact reading: annet lets ONE of the matches govern a row -- which one is a heuristic (most specific by a character
    measure) that the property does not fix, except where the measure cannot tell two matches apart: matches whose effective patterns
-   are identical are taken in the order direct before negated, local before %global.  Whatever match governs, the consequences are fixed:
+   are identical are taken in the order direct before negated, local before %global, and a bare catch-all `~` yields to any match by a
+   pattern with a literal word.  Whatever match governs, the consequences are fixed:
      - the negated form of a rule whose (united) lines are all cant_delete: the row is not passed;
      - a local rule matched directly: the row passes and the children rules of ALL directly matching local rules apply below it;
      - anything else (%global rule, negated form): the row passes, below it only inherited %global rules apply.
@@ -84,7 +85,12 @@ Unite(rules) ==
          kids |-> IF g THEN <<>> ELSE Unite(FlatSeq([k \in DOMAIN mem |-> mem[k].kids]))]]
 EffPat(prefix, vis, m) == IF m[2] = "direct" THEN vis[m[1]].pat ELSE RevPattern(vis[m[1]].pat, prefix)
 Prec(vis, m) == (IF m[2] = "direct" THEN 0 ELSE 2) + (IF vis[m[1]].glob THEN 1 ELSE 0)
-Sel(prefix, vis, ms) == {m \in ms : ~\E n \in ms : EffPat(prefix, vis, n) = EffPat(prefix, vis, m) /\ Prec(vis, n) < Prec(vis, m)}
+\* ... and a bare catch-all (`~` alone, matching any line) never governs a row that a pattern with a literal word matches as well: the
+\* specificity measure counts characters shared with the line, of which the catch-all's expression has none
+IsCatchAll(p) == p = << [t |-> "tilde"] >>
+HasLiteral(p) == \E k \in DOMAIN p : p[k].t = "lit"
+Sel(prefix, vis, ms) == {m \in ms : /\ ~\E n \in ms : EffPat(prefix, vis, n) = EffPat(prefix, vis, m) /\ Prec(vis, n) < Prec(vis, m)
+                                    /\ ~(IsCatchAll(EffPat(prefix, vis, m)) /\ \E n \in ms : HasLiteral(EffPat(prefix, vis, n)))}
 GovDrops(vis, m) == m[2] = "reverse" /\ vis[m[1]].cd
 GovDown(vis, ms, m) == IF m[2] = "direct" /\ ~vis[m[1]].glob THEN MergedKids(vis, ms) ELSE <<>>
 RECURSIVE RaiseSet(_, _, _, _, _)
